@@ -30,6 +30,10 @@ static void post_invariant(const Instance& f) {
   VASSERT(C01/C11, inv_quiescent(f), "nothing is left half-applied after the step (no pending marks, empty queue)");
   VASSERT(C03, inv_monitor(f), "entered states == active states after the step");
   VASSERT(C03, g_this_consistent, "all callbacks of a state are delivered to one and the same object");
+#ifdef VM_INJECT
+  { bool same = true; for (int s = 0; s < VM_NS; ++s) if (VM_HAS_STUB(s)) same = same && g_inj_entered[s] == g_entered[s];
+    VASSERT(C03, same, "injected handlers see the same enter / exit history as the state's own handlers"); }
+#endif
 #ifdef VM_FOR_STATES
 #define VM_X_(T, i) if (g_this[i]) VASSERT(C03, g_this[i] == (const void*) static_cast<const St<i>*>(&f.template access<T>()), "callbacks are delivered to the object that access<State>() returns");
   VM_FOR_STATES(VM_X_)
@@ -634,6 +638,22 @@ static void body_randomize(int kind, int region) {            // kind: 5 = rando
 }
 // the exact rule of the statement, free of rounding: utilities are small integers, the generator output lies on the grid m / 2^20, so every
 // product and partial sum the library forms is exact in binary32 and "the cumulative-utility interval that contains r x sum" is decidable in integers
+// randomize on a region whose options include REGIONS (scratch arrays of ranks / utilities are indexed by prong, not by state): safety and "never none"
+static void body_randomize_regions(int kind, int region) {
+  ARBITRARY_ACTIVE(f);
+  predraw_answers();
+  for (int s = 1; s < VM_NS; ++s) VASSUME(g_util_val[s] >= 1.0f && g_util_val[s] <= 2.0f);      // positive everywhere: the documented precondition holds for every region
+  VREACH("randomize among options that are regions");
+  call_immediate(f, kind, region);
+  if (!g_round_cancelled) {
+    const Prong p = f._core.registry.compoActive[VM_SPEC[region].fork];
+    VASSERT(C12/C01, p < VM_SPEC[region].width, "randomize never activates none");
+    int chosen = -1; for (int c = region + 1; c < VM_NS; ++c) if (VM_SPEC[c].parent == region && VM_SPEC[c].prong == p) chosen = c;
+    int8_t top = -1; for (int c = region + 1; c < VM_NS; ++c) if (VM_SPEC[c].parent == region && g_rank_val[c] > top) top = g_rank_val[c];
+    if (chosen >= 0) VASSERT(C12, g_rank_val[chosen] == top, "randomize considers only sub-states of the highest rank (options that are regions included)");
+  }
+  post_invariant(f);
+}
 static void body_randomize_exact(int kind, int region) {
   ARBITRARY_ACTIVE(f);
   predraw_answers();
@@ -677,6 +697,7 @@ static int plan_shape(int shape, PTask out[3]) {
     case 5: out[0] = {3, 4, 1}; return 1;                                   // a RESTART task
     case 6: out[0] = {4, 5, 0}; out[1] = {3, 4, 0}; return 2;               // first task's origin may be inactive: it blocks the rest
     case 7: out[0] = {3, 4, 6}; return 1;                                   // a SCHEDULE task
+    case 10: out[0] = {3, 3, 0}; out[1] = {3, 4, 0}; return 2;              // a cyclic task followed by another task of the same origin: the cyclic one consumes the success
     case 9: out[0] = {2, 5, 0}; out[1] = {3, 4, 0}; return 2;               // an earlier task whose origin (the head) is ACTIVE but has not succeeded must not block a later one
     default: return 0;
   }
@@ -694,7 +715,8 @@ static void body_plan(unsigned cfg, int shape, int actor, int action) {
   // spec: which tasks are executed
   bool exec[3] = {false, false, false}; int n_exec = 0, last_dest = -1, last_kind = 0;
   if (acts && in_region && action == 1)
-    for (int i = 0; i < n; ++i) { if (!old.on[t[i].origin]) break; if (t[i].origin == actor) { exec[i] = true; ++n_exec; last_dest = t[i].dest; last_kind = t[i].kind; } }
+    { bool consumed = false;                                  // a cyclic task (origin == destination) uses up its origin's success: later tasks of that origin wait for the next one
+      for (int i = 0; i < n; ++i) { if (!old.on[t[i].origin]) break; if (t[i].origin == actor && !consumed) { exec[i] = true; ++n_exec; last_dest = t[i].dest; last_kind = t[i].kind; if (t[i].origin == t[i].dest) consumed = true; } } }
   f.update();
   VASSERT(C01, inv_config(f) && inv_quiescent(f), "the configuration is well-formed after the step");
   VASSERT(C03, inv_monitor(f), "entered states == active states after the step");
